@@ -3,126 +3,124 @@ import Walrus.Run
 /-! Elision of `nop`s and of syntactically unreachable code is unobservable (C01). -/
 namespace Walrus.Sem
 
-theorem execOp_nop (T FS : List Sig) (call : CallFn) (o : Op) (s : St) (h : o.name = "Nop") :
-    execOp T FS call o s = .ok s := by
-  simp [execOp, h]
+theorem execOp_nop (C : Ctx) (call : CallFn) (o : Op) (s : St) (h : o.name = "Nop") :
+    execOp C call o s = .ok s := by
+  simp [execOp, isSpecial, execPlain, h]
 
 /-- an unconditional transfer never completes normally -/
-theorem execOp_endsSeq (T FS : List Sig) (call : CallFn) (o : Op) (s : St) (h : endsSeq o = true) :
-    ∀ s', execOp T FS call o s ≠ .ok s' := by
+theorem execOp_endsSeq (C : Ctx) (call : CallFn) (o : Op) (s : St) (h : endsSeq o = true) :
+    ∀ s', execOp C call o s ≠ .ok s' := by
   intro s'
   simp only [endsSeq, Bool.or_eq_true, decide_eq_true_eq] at h
   rcases h with ((h | h) | h) | h
-  · simp [execOp, h]
-  · simp only [execOp, h]
+  · simp [execOp, isSpecial, execPlain, h]
+  · simp only [execOp, isSpecial, execPlain, h]
     simp
     split <;> simp
-  · simp only [execOp, h]
+  · simp only [execOp, isSpecial, execPlain, h]
     simp
     split
     · split <;> simp
     · simp
-  · simp [execOp, h]
-
+  · simp [execOp, isSpecial, execPlain, h]
 
 /-- what the two `Rec`s must agree on: calls mean the same, and re-entering the elided loop means
     the same as re-entering the original one -/
 structure RecRel (R' R : Rec) : Prop where
   call : R'.call = R.call
-  loop : ∀ bt b s, R'.reLoop bt b.elide s = R.reLoop bt b s
+  loop : ∀ lt bt b s, R'.reLoop lt bt b.elide s = R.reLoop lt bt b s
 
 mutual
-theorem elide_execI (T FS : List Sig) (R' R : Rec) (h : RecRel R' R) :
-    (i : SI) → ∀ s, execI T FS R' i.elide s = execI T FS R i s
+theorem elide_execI (C : Ctx) (R' R : Rec) (h : RecRel R' R) :
+    (i : SI) → ∀ s, execI C R' i.elide s = execI C R i s
   | .op o, s => by simp [SI.elide, execI, h.call]
   | .block bt b, s => by
       simp only [SI.elide, execI]
-      rw [elide_execL T FS R' R h b s]
+      rw [elide_execL C R' R h b s]
   | .loop bt b, s => by
       simp only [SI.elide, execI]
-      rw [elide_execL T FS R' R h b s]
+      rw [elide_execL C R' R h b s]
       split <;> simp [h.loop]
   | .ite bt t e, s => by
       simp only [SI.elide, execI]
       split
       · rename_i c r hs
-        rw [elide_execL T FS R' R h t, elide_execL T FS R' R h e]
+        rw [elide_execL C R' R h t, elide_execL C R' R h e]
       · rfl
-theorem elide_execL (T FS : List Sig) (R' R : Rec) (h : RecRel R' R) :
-    (l : SL) → ∀ s, execL T FS R' l.elide s = execL T FS R l s
+theorem elide_execL (C : Ctx) (R' R : Rec) (h : RecRel R' R) :
+    (l : SL) → ∀ s, execL C R' l.elide s = execL C R l s
   | .nil, s => by simp [SL.elide, execL]
   | .cons (.op o) t, s => by
       simp only [SL.elide]
       split
       · rename_i hn
-        rw [elide_execL T FS R' R h t s]
-        simp [execL, execI, execOp_nop T FS R.call o s hn]
+        rw [elide_execL C R' R h t s]
+        simp [execL, execI, execOp_nop C R.call o s hn]
       · split
         · rename_i he
-          have hne := execOp_endsSeq T FS R.call o s he
+          have hne := execOp_endsSeq C R.call o s he
           simp only [execL, execI, h.call]
         · simp only [execL, execI, h.call]
-          cases hx : execOp T FS R.call o s with
-          | ok s' => exact elide_execL T FS R' R h t s'
+          cases hx : execOp C R.call o s with
+          | ok s' => exact elide_execL C R' R h t s'
           | _ => rfl
   | .cons (.block bt b) t, s => by
       simp only [SL.elide, execL]
-      rw [elide_execI T FS R' R h (.block bt b) s]
-      cases hx : execI T FS R (.block bt b) s with
-      | ok s' => exact elide_execL T FS R' R h t s'
+      rw [elide_execI C R' R h (.block bt b) s]
+      cases hx : execI C R (.block bt b) s with
+      | ok s' => exact elide_execL C R' R h t s'
       | _ => rfl
   | .cons (.loop bt b) t, s => by
       simp only [SL.elide, execL]
-      rw [elide_execI T FS R' R h (.loop bt b) s]
-      cases hx : execI T FS R (.loop bt b) s with
-      | ok s' => exact elide_execL T FS R' R h t s'
+      rw [elide_execI C R' R h (.loop bt b) s]
+      cases hx : execI C R (.loop bt b) s with
+      | ok s' => exact elide_execL C R' R h t s'
       | _ => rfl
   | .cons (.ite bt a e) t, s => by
       simp only [SL.elide, execL]
-      rw [elide_execI T FS R' R h (.ite bt a e) s]
-      cases hx : execI T FS R (.ite bt a e) s with
-      | ok s' => exact elide_execL T FS R' R h t s'
+      rw [elide_execI C R' R h (.ite bt a e) s]
+      cases hx : execI C R (.ite bt a e) s with
+      | ok s' => exact elide_execL C R' R h t s'
       | _ => rfl
 end
 
 
-/-- the module with every body elided -/
-def Env.elide (E : Env) : Env := { E with funcs := E.funcs.map fun fi => { fi with body := fi.body.elide } }
+theorem Env.elide_usigs (E : Env) : E.elide.usigs = E.usigs := by
+  simp [Env.elide, Env.usigs, List.map_map, Function.comp_def]
 
-theorem Env.elide_fsigs (E : Env) : E.elide.fsigs = E.fsigs := by
-  simp [Env.elide, Env.fsigs, List.map_map, Function.comp_def]
+theorem Env.elide_ctx (E : Env) (lt : List (Nat × String)) : E.elide.ctx lt = E.ctx lt := by
+  simp [Env.ctx, Env.elide_usigs]; exact ⟨rfl, rfl⟩
 
-theorem callFn_elide (E : Env) (R' R : Rec) (h : RecRel R' R) (f : Nat) (args : List V) (st : Store) :
-    callFn E.elide R' f args st = callFn E R f args st := by
+theorem callFn_elide (E : Env) (R' R : Rec) (h : RecRel R' R) (u : Nat) (args : List V) (st : Store) :
+    callFn E.elide R' u args st = callFn E R u args st := by
   unfold callFn
-  have hf : E.elide.funcs[f]? = (E.funcs[f]?).map fun fi => { fi with body := fi.body.elide } := by
+  have hf : E.elide.ufuncs[u]? = (E.ufuncs[u]?).map fun fi => { fi with body := fi.body.elide } := by
     simp [Env.elide]
   rw [hf]
-  cases hfi : E.funcs[f]? with
-  | none => rfl
-  | some fi =>
-    simp only [Option.map_some]
-    cases hi : fi.imp with
-    | some p => simp [hi]
-    | none =>
-      simp only [hi, Env.elide_fsigs]
-      have : E.elide.types = E.types := rfl
-      rw [this, elide_execL E.types E.fsigs R' R h fi.body]
+  split
+  · rfl
+  · cases hfi : E.ufuncs[u]? with
+    | none => rfl
+    | some fi =>
+      simp only [Option.map_some]
+      cases hi : fi.imp with
+      | some p => simp
+      | none =>
+        simp only [Env.elide_ctx]
+        rw [elide_execL (E.ctx fi.lt) R' R h fi.body]
 
 theorem mkRec_elide (E : Env) : ∀ n, RecRel (mkRec E.elide n) (mkRec E n)
-  | 0 => ⟨rfl, fun _ _ _ => rfl⟩
+  | 0 => ⟨rfl, fun _ _ _ _ => rfl⟩
   | n+1 => by
     have ih := mkRec_elide E n
     constructor
     · funext f args st
       exact callFn_elide E _ _ ih f args st
-    · intro bt b s
-      simp only [mkRec, Env.elide_fsigs]
-      have : E.elide.types = E.types := rfl
-      rw [this]
+    · intro lt bt b s
+      simp only [mkRec, Env.elide_ctx]
       split
       · rfl
-      · exact elide_execI E.types E.fsigs _ _ ih (.loop bt b) _
+      · exact elide_execI (E.ctx lt) _ _ ih (.loop bt b) _
 
 /-- **calls into the elided module mean what they meant before**, for every gas budget -/
 theorem invoke_elide (E : Env) (gas : Nat) : invoke E.elide gas = invoke E gas := by
@@ -132,8 +130,8 @@ theorem invoke_elide (E : Env) (gas : Nat) : invoke E.elide gas = invoke E gas :
 /-- **the whole observation is unchanged**: instantiation outcome, every result and trap of every
     call of the script, the host-call trace and the exported state -/
 theorem observe_elide (m : ModuleM) (E : Env) (gas seed rounds : Nat) :
-    observeWith m E.elide.fsigs (invoke E.elide gas) seed rounds =
-    observeWith m E.fsigs (invoke E gas) seed rounds := by
-  rw [invoke_elide, Env.elide_fsigs]
+    observeWith m E.elide.ftab E.elide.usigs (invoke E.elide gas) seed rounds =
+    observeWith m E.ftab E.usigs (invoke E gas) seed rounds := by
+  rw [invoke_elide, Env.elide_usigs]; rfl
 
 end Walrus.Sem
